@@ -246,6 +246,36 @@ def check_output(inp, opts, out):
                 kind = "[alternates overcharged]" if got > exp + exp_alt else "[alternates]"
                 F["C05"].append("%s unplanned_penalty base %s, expected %s (unplanned stops %s + unused alternates %s)"
                                 % (kind, got, exp + exp_alt, exp, exp_alt))
+    if "travel_duration" in terms:
+        exp = sum(vo.get("route_travel_duration", 0) for _, vo in routes.values())
+        if abs(terms["travel_duration"].get("base", 0) - exp) > len(routes) + 1e-9 * exp:
+            F["C05"].append("travel_duration base %s, sum of route travel durations %s" % (terms["travel_duration"].get("base"), exp))
+    # early / late arrival: the output carries target and arrival per stop; durations and penalties follow from them
+    exp_early = exp_late = 0.0
+    tol_early = tol_late = 1e-6
+    for vid, (ids, vo) in routes.items():
+        for st in vo.get("route", []):
+            sid = st["stop"]["id"]
+            src = stops.get(sid) or alts.get(sid)
+            if src is None or not st.get("target_arrival_time") or not st.get("arrival_time"):
+                continue
+            tgt, arr = ts(st["target_arrival_time"]), ts(st["arrival_time"])
+            early, late = max(0, tgt - arr), max(0, arr - tgt)
+            # the output reports a duration only for stops that carry the corresponding penalty (factory/format.go)
+            if sid in stops:
+                if src.get("early_arrival_time_penalty") is not None and abs(st.get("early_arrival_duration", 0) - early) > 1:
+                    F["C20"].append("stop %s: early_arrival_duration %s, target and arrival give %s" % (sid, st.get("early_arrival_duration", 0), early))
+                if src.get("late_arrival_time_penalty") is not None and abs(st.get("late_arrival_duration", 0) - late) > 1:
+                    F["C20"].append("stop %s: late_arrival_duration %s, target and arrival give %s" % (sid, st.get("late_arrival_duration", 0), late))
+            fe, fl = src.get("early_arrival_time_penalty") or 0, src.get("late_arrival_time_penalty") or 0
+            exp_early += fe * early
+            exp_late += fl * late
+            tol_early += fe
+            tol_late += fl
+    if "early_arrival_penalty" in terms and abs(terms["early_arrival_penalty"].get("base", 0) - exp_early) > tol_early:
+        F["C05"].append("early_arrival_penalty base %s, penalties x early durations of the routes %s" % (terms["early_arrival_penalty"].get("base"), exp_early))
+    if "late_arrival_penalty" in terms and abs(terms["late_arrival_penalty"].get("base", 0) - exp_late) > tol_late:
+        F["C05"].append("late_arrival_penalty base %s, penalties x late durations of the routes %s" % (terms["late_arrival_penalty"].get("base"), exp_late))
     if "vehicle_activation_penalty" in terms:
         exp = sum((veh_in[vid].get("activation_penalty") or 0) for vid, (ids, vo) in routes.items()
                   if any(not (s.endswith("-start") or s.endswith("-end")) for s in ids))
